@@ -13,8 +13,13 @@
 (***************************************************************************)
 EXTENDS Naturals, Sequences, FiniteSets, TLC, Json
 
-Inner == {"none", "badsig", "unsigned", "expired", "notyet", "audience", "solicit", "recipient", "forged_after_signing"}
-Keys  == {"matchFirst", "matchSecond", "none"}
+\* expired_offset: the session of the inner assertion ended long ago, its SessionNotOnOrAfter written with a numeric zone
+\* designator (+00:00: a valid xs:dateTime, not the UTC form; decrypted assertions are not schema-validated again)
+Inner == {"none", "badsig", "unsigned", "expired", "notyet", "audience", "solicit", "recipient", "forged_after_signing", "expired_offset"}
+\* "perRequest": the assertion is encrypted for a key pair the SP made for this one request (PEFIM: the certificate
+\* travelled in the request); the SP hands two such private keys over with the response, the fitting one first; its
+\* configured key pairs do not fit
+Keys  == {"matchFirst", "matchSecond", "none", "perRequest"}
 \* companion: the response also carries a plain, valid (and validly signed) assertion next to the encrypted one
 \* spKey: the SP publishes its encryption certificate with use="encryption", or one certificate without a use attribute
 \* (good for signing and encryption alike) -- either way it has an encryption certificate
@@ -30,13 +35,19 @@ Scn == [producer : {"idp"}, signResp : BOOLEAN, signAssert : BOOLEAN, advice : B
         \* via: the build options are handed to create_authn_response as arguments, or stand in the IdP's configuration
         \* (sign_response, sign_assertion, encrypt_assertion, encrypted_advice_attributes, encrypt_assertion_self_contained)
         \* and the call names none of them -- the same options either way
-        via : {"argument", "config"}]
+        via : {"argument", "config"},
+        \* encMain: encrypt_assertion.  FALSE with advice = TRUE: the IdP is asked to encrypt the advice assertion only (the
+        \* attributes travel there -- PEFIM); the main assertion, with the subject identifier, stays plain by request
+        encMain : BOOLEAN]
        \cup [producer : {"attacker"}, signResp : {FALSE}, signAssert : {TRUE}, advice : {FALSE}, selfContained : {TRUE},
              pefim : {FALSE}, keys : Keys, inner : Inner, wantAssert : BOOLEAN, companion : BOOLEAN, spKey : {"labelled"}, priorVerify : {FALSE},
-             via : {"argument"}]
+             via : {"argument"}, encMain : {TRUE}]
 
 \* the prior verification is combined with the plain build options only
-WellFormed(s) == /\ s.spKey \in {"methods", "extra_keyname"} => ~s.advice /\ ~s.pefim /\ s.selfContained /\ s.keys = "matchFirst" /\ ~s.priorVerify
+WellFormed(s) == /\ s.keys = "perRequest" => /\ s.producer = "idp" /\ ~s.advice /\ ~s.pefim /\ s.selfContained /\ s.spKey = "labelled"
+                                             /\ ~s.priorVerify /\ s.via = "argument" /\ s.encMain
+                 /\ ~s.encMain => s.advice /\ s.pefim /\ s.keys = "matchFirst" /\ s.spKey = "labelled" /\ ~s.priorVerify /\ s.via = "argument" /\ ~s.wantAssert
+                 /\ s.spKey \in {"methods", "extra_keyname"} => ~s.advice /\ ~s.pefim /\ s.selfContained /\ s.keys = "matchFirst" /\ ~s.priorVerify
                                                                  /\ s.via = "argument" /\ s.producer = "idp"
                  /\ s.priorVerify => ~s.advice /\ ~s.pefim /\ s.selfContained /\ s.keys = "matchFirst" /\ s.spKey = "labelled" /\ s.via = "argument"
                  /\ s.via = "config" => s.keys = "matchFirst" /\ s.spKey = "labelled" /\ ~s.wantAssert
@@ -61,25 +72,27 @@ Round2 == /\ pc = "round2"
 \* _assertion(assertion, verified = TRUE) and the checks every assertion gets
 Checks == /\ pc = "checks"
           /\ IF scn.wantAssert /\ ~HasSig THEN Done("reject")
-             ELSE IF scn.inner \in {"expired", "notyet", "audience", "solicit", "recipient"} THEN Done("reject")
+             ELSE IF scn.inner \in {"expired", "notyet", "audience", "solicit", "recipient", "expired_offset"} THEN Done("reject")
              ELSE Done("accept")
 
 \* ---- contract
 Decryptable == scn.keys # "none"
 \* with a valid plain companion an undecryptable assertion leaves the companion's identity: open
-InnerBad == \/ scn.inner \in {"badsig", "forged_after_signing", "expired", "notyet", "audience", "solicit"}
+InnerBad == \/ scn.inner \in {"badsig", "forged_after_signing", "expired", "notyet", "audience", "solicit", "expired_offset"}
             \/ (scn.inner = "unsigned" /\ scn.wantAssert)
             \/ (~scn.signAssert /\ scn.wantAssert)
-MustNoIdentity == (~Decryptable /\ ~scn.companion) \/ (Decryptable /\ InnerBad)
+\* (with a plain main assertion what the SP accepts is left open here: the statement checked is confidentiality)
+MustNoIdentity == scn.encMain /\ ((~Decryptable /\ ~scn.companion) \/ (Decryptable /\ InnerBad))
 \* what the same assertion would get in plain (the relational clause: same checks)
-PlainWouldReject == scn.inner \in {"badsig", "forged_after_signing", "expired", "notyet", "audience", "solicit"}
+PlainWouldReject == scn.inner \in {"badsig", "forged_after_signing", "expired", "notyet", "audience", "solicit", "expired_offset"}
                     \/ ((scn.inner = "unsigned" \/ ~scn.signAssert) /\ scn.wantAssert)
-MustAccept == Decryptable /\ scn.inner = "none" /\ (scn.wantAssert => scn.signAssert) /\ ~scn.companion
+MustAccept == scn.encMain /\ Decryptable /\ scn.inner = "none" /\ (scn.wantAssert => scn.signAssert) /\ ~scn.companion
               /\ (scn.producer = "idp" => scn.selfContained \/ scn.pefim)      \* see DESIGN: non-self-contained output
 Confidential == scn.producer = "idp"
 Emit == /\ pc = "done" /\ pc' = "emitted" /\ UNCHANGED <<scn, plain, sigChecked, verdict>>
         /\ PrintT(<<"CASE", ToJson([scn |-> scn, model |-> verdict, mustNoIdentity |-> MustNoIdentity,
-                                    mustAccept |-> MustAccept, confidential |-> Confidential])>>)
+                                    mustAccept |-> MustAccept, confidential |-> Confidential,
+                                    clearBySubject |-> ~scn.encMain])>>)
 Next == Round1 \/ Round2 \/ Checks \/ Emit
 Spec == Init /\ [][Next]_vars
 PipelineMeetsContract == pc \in {"done", "emitted"} =>
